@@ -3307,6 +3307,16 @@ class PyCdlib:
         if length > (2**32) - 1 and self.interchange_level < 3:
             raise pycdlibexception.PyCdlibInvalidInput('File sizes for interchange level < 3 must be less than 4GiB')
 
+        # The entries are added one namespace after the other.  Resolve the
+        # Joliet and UDF destinations up front, so that a name or a parent that
+        # is refused there is reported while nothing has been added yet.
+        if joliet_path:
+            self._joliet_name_and_parent_from_path(self._normalize_joliet_path(joliet_path))
+        if udf_path:
+            if self.udf_root is None:
+                raise pycdlibexception.PyCdlibInvalidInput('Can only specify a UDF path for a UDF ISO')
+            self._udf_name_and_parent_from_path(utils.normpath(udf_path))
+
         left = length
         offset = 0
         done = False
@@ -4846,6 +4856,16 @@ class PyCdlib:
         # required for Rock Ridge and remove this assumption.
         if file_mode is None:
             file_mode = 0o040555
+
+        # The directory is added one namespace after the other.  Resolve the
+        # Joliet and UDF destinations up front, so that a name or a parent that
+        # is refused there is reported while nothing has been added yet.
+        if joliet_path:
+            self._joliet_name_and_parent_from_path(self._normalize_joliet_path(joliet_path))
+        if udf_path:
+            if self.udf_root is None:
+                raise pycdlibexception.PyCdlibInvalidInput('Can only specify a UDF path for a UDF ISO')
+            self._udf_name_and_parent_from_path(utils.normpath(udf_path))
 
         num_bytes_to_add = 0
         if iso_path is not None:
